@@ -87,13 +87,14 @@ def rule_G6(prog, fixture=False):
 
 
 # =================================================================================================
-N3_FILES = re.compile(r"lib/corr\.cpp$")
+N3_FILES = re.compile(r"lib/corr\.cpp$|include/dsplib/tuner\.h$|lib/hilbert\.cpp$")
+N3_C14 = re.compile(r"include/dsplib/tuner\.h$|lib/hilbert\.cpp$")
 
 
 def rule_N3(prog, fixture=False):
-    res = RuleResult("N3", "in the correlation kernels no product of two non-constant 32-bit integers (sample counts, ranks) is "
-                           "formed in integer arithmetic and then converted to floating point: n*n overflows at 46341 samples, "
-                           "n*n*n at 1291")
+    res = RuleResult("N3", "in the correlation kernels and in the tuner / hilbert code no product of two non-constant 32-bit integers "
+                           "(sample counts, ranks, frequency x phase counter) is formed in integer arithmetic and then converted to "
+                           "floating point: n*n overflows at 46341, n*n*n at 1291, f*k at fs*f >= 2^31")
     n_sites = 0
     for f in sorted(prog.functions.values(), key=lambda f: (f.file, f.line, f.name)):
         if f.get("implicit") or not (N3_FILES.search(prog.rel(f.file)) or fixture):
@@ -107,8 +108,9 @@ def rule_N3(prog, fixture=False):
             key = "N3:%s:mul%d" % (fkey(f), idx)
             where = "%s:%d" % (prog.rel(f.file), x.line)
             what = "%s in %s" % (x.text(), f.short)
+            n3p = {"props": ["C14"] if N3_C14.search(prog.rel(f.file)) else ["C16"]}
             if _is_constant(x.c[0]) or _is_constant(x.c[1]) or (x.get("w") or 0) > 32:
-                res.add(key, DISCHARGED, where, what, "constant factor or 64-bit arithmetic", func=f.name)
+                res.add(key, DISCHARGED, where, what, "constant factor or 64-bit arithmetic", func=f.name, extra=n3p)
                 continue
             par = x.parent
             hit = None
@@ -119,12 +121,24 @@ def rule_N3(prog, fixture=False):
                 if par.k == "ImplicitCastExpr" and par.get("ck") in ("IntegralCast", "NoOp", "LValueToRValue"):
                     par = par.parent
                     continue
-                if par.k == "BinaryOperator" and par.op in ("+", "-", "*") and _is_int(par):
+                if par.k == "BinaryOperator" and par.op in ("+", "-", "*", "%") and _is_int(par):
                     par = par.parent
                     continue
                 if par.k == "UnaryOperator" and par.op in ("-", "+"):
                     par = par.parent
                     continue
+                if par.k == "VarDecl" and par.tc == "int":
+                    # const int k = a * b;  ...  k flows into a real formula: follow the variable once
+                    uses = [u for u in f.walk() if u.k == "DeclRefExpr" and u.decl and u.decl.get("id") == par.decl["id"]]
+                    for u in uses:
+                        q = u.parent
+                        while q is not None and q.k == "ImplicitCastExpr" and q.get("ck") in ("LValueToRValue", "NoOp", "IntegralCast"):
+                            q = q.parent
+                        while q is not None and q.k == "BinaryOperator" and q.op in ("+", "-", "*", "%") and _is_int(q):
+                            q = q.parent
+                        if q is not None and q.k == "ImplicitCastExpr" and q.get("ck") == "IntegralToFloating":
+                            hit = q
+                    break
                 if par.k in ("CXXStaticCastExpr", "CXXFunctionalCastExpr", "CStyleCastExpr") and par.tc == "float":
                     hit = par
                     break
@@ -132,9 +146,9 @@ def rule_N3(prog, fixture=False):
             if hit is not None:
                 res.add(key, VIOLATED, where, what,
                         "the product is computed in %s and only then converted to floating point (%s): it wraps for realistic "
-                        "sample counts" % (x.type, hit.parent.text() if hit.parent is not None else hit.text()), func=f.name)
+                        "sample counts / rates" % (x.type, hit.parent.text() if hit.parent is not None else hit.text()), func=f.name, extra=n3p)
             else:
-                res.add(key, DISCHARGED, where, what, "integer product stays in integer context", func=f.name)
+                res.add(key, DISCHARGED, where, what, "integer product stays in integer context", func=f.name, extra=n3p)
     res.stats["integer_products"] = n_sites
     return res
 
@@ -373,7 +387,8 @@ def rule_H1(prog, fixture=False):
         if not inputs:
             continue
         arrays = [x["name"] for x in cj["fields"] if is_container_type(x["ctype"]) and not x["const"]]
-        if not arrays:
+        scalars = [x["name"] for x in cj["fields"] if not x["const"] and not is_container_type(x["ctype"]) and re.match(r"^(unsigned |signed )?(int|long|short|double|float|size_t|unsigned long|unsigned int|dsplib::cmplx_t)$", x["ctype"])]
+        if not arrays and not scalars:
             continue
         flow = Flow(f, prog, control=False)
         rel = prog.rel(f.file)
@@ -382,10 +397,10 @@ def rule_H1(prog, fixture=False):
             ws = _write_sources(f, flow, fld)
             if ws:
                 written.append((fld, ws))
-        if not written:
+        if not written and not any(_write_sources(f, flow, sname) for sname in scalars):
             continue
         n_proc += 1
-        h1_props = ["C06"] + (["C08"] if "lib/resample/" in rel else [])
+        h1_props = ["C06"] + (["C08"] if "lib/resample/" in rel else []) + (["C20"] if ("/audio/" in rel or rel.endswith("agc.cpp")) else [])
         in_names = {p["n"] for p in inputs}
         for (fld, ws) in written:
             key = "H1:%s:%s" % (fkey(f), fld)
@@ -409,6 +424,67 @@ def rule_H1(prog, fixture=False):
                 res.add(key, UNMODELLED, where, what, "new contents depend only on the previous contents (coefficient-like state)", func=f.name, extra=extra)
             else:
                 res.add(key, UNMODELLED, where, what, "write sources not understood", func=f.name, extra=extra)
+        # integer position / counter state (ring index, phase counter, fill level) continues from its previous value
+        for fld in [x for x in cj["fields"] if not x["const"] and re.match(r"^(unsigned |signed )?(int|long|short|size_t|unsigned long|unsigned int)$", x["ctype"])]:
+            ws = _write_sources(f, flow, fld["name"])
+            if not ws:
+                continue
+            deps = set()
+            for (_, d) in ws:
+                deps |= d
+            key = "H1:%s:%s" % (fkey(f), fld["name"])
+            where = "%s:%d" % (rel, ws[0][0].line)
+            what = "%s carries the position %s across calls" % (f.short, fld["name"])
+            if any(a[0] == "this" and a[1] == fld["name"] for a in deps):
+                res.add(key, DISCHARGED, where, what, "the new value depends on the previous one", func=f.name, extra={"props": h1_props})
+            else:
+                res.add(key, VIOLATED, where, what,
+                        "%s is set from %s alone (%s): the position in the stream restarts with every call, so the result depends on "
+                        "how the stream is framed" % (fld["name"], ", ".join(sorted({"%s.%s" % (a[1], a[2]) for a in deps if a[0] == "parm"})) or "constants",
+                                                      ws[-1][0].text()), func=f.name, extra={"props": h1_props})
+        # no data-dependent shortcut around the state update: a return that is reached only for certain sample values, on a
+        # path that has not written the recursive state, lets the state miss those samples
+        all_rets = [n for n in f.walk() if n.k == "ReturnStmt" and not any(a.k == "LambdaExpr" for a in n.ancestors())]
+        state_writes = []
+        for x in cj["fields"]:
+            if x["const"]:
+                continue
+            for (wn, wd) in _write_sources(f, flow, x["name"]):
+                state_writes.append((x["name"], wn))
+        f.blocks
+        for ri, r in enumerate(all_rets):
+            rl = f.block_of(r)
+            if rl is None or not state_writes:
+                continue
+            data_conds = []
+            for fact in f.facts_at(r):
+                if fact.belief:
+                    continue
+                for (c, pol) in atoms_of(fact.cond, fact.pol):
+                    if any(a[0] == "parm" and a[1] in in_names and a[2] == "content" for a in flow.deps(c)):
+                        data_conds.append(c)
+            if not data_conds:
+                continue
+            # which state members have no write that can reach this return?
+            missed = []
+            for fld in sorted({n_ for (n_, _) in state_writes}):
+                reached = False
+                for (n_, wn) in state_writes:
+                    if n_ != fld:
+                        continue
+                    wl = f.block_of(wn)
+                    if wl is None:
+                        continue
+                    if (wl[0] == rl[0] and wl[1] < rl[1]) or (wl[0] != rl[0] and rl[0] in f.reachable(wl[0])):
+                        reached = True
+                if not reached:
+                    missed.append(fld)
+            key = "H1:%s:shortcut%d" % (fkey(f), ri + 1)
+            if missed:
+                res.add(key, VIOLATED, "%s:%d" % (rel, r.line), "%s updates its state for every frame" % f.short,
+                        "the return at line %d is taken only when %s holds for the samples of the frame, and no write of %s lies on the way "
+                        "to it: frames selected by their contents bypass the state update" % (r.line, data_conds[0].text(), ", ".join(missed)),
+                        func=f.name, extra={"props": h1_props})
         # output uses the input and the state
         rets = [n for n in f.walk() if n.k == "ReturnStmt" and n.c and not any(a.k == "LambdaExpr" for a in n.ancestors())]
         if rets:
@@ -417,7 +493,7 @@ def rule_H1(prog, fixture=False):
                 deps |= flow.deps(r.c[0])
             key = "H1:%s:output" % fkey(f)
             dep_in = any(a[0] == "parm" and a[1] in in_names and a[2] == "content" for a in deps)
-            state_fields = [fld for (fld, _) in written]
+            state_fields = [fld for (fld, _) in written] + [sname for sname in scalars if _write_sources(f, flow, sname)]
             dep_state = [fld for fld in state_fields if any(a[0] == "this" and a[1] == fld for a in deps)]
             if dep_in and dep_state:
                 res.add(key, DISCHARGED, "%s:%d" % (rel, rets[0].line), "%s output" % f.short,
